@@ -1192,6 +1192,12 @@ func (e *Engine) mapKeyKind(mt *types.Map) Kind {
 	switch k {
 	case KInt, KStr, KAddr, KIface, KBool:
 		return k
+	case KArr:
+		if a, ok := mt.Key().Underlying().(*types.Array); ok && a.Len() <= 64 {
+			if ek := kindOf(a.Elem()); ek == KInt || ek == KBool {
+				return KInt // folded by keyVal
+			}
+		}
 	}
 	e.unsupported("map key type %v", mt.Key())
 	return KInt
@@ -1222,6 +1228,7 @@ func (e *Engine) mapInitEmpty(st *State, addr string, mt *types.Map) {
 }
 
 func (e *Engine) mapGet(st *State, m Val, key Val, mt *types.Map) (val Val, ok string) {
+	key = e.keyVal(st, key, mt)
 	dh := st.heap(e.mapDomHeap(mt))
 	ok = st.define("mok", "Bool", sAnd(sNot(sEq(m.T, "null")), "(select (select "+dh+" "+m.T+") "+key.T+")"))
 	vh, vk, scalar := e.mapValHeap(mt)
@@ -1262,14 +1269,27 @@ func (e *Engine) lookup(st *State, in *ssa.Lookup) {
 	}
 }
 
+// keyVal: map keys of array type ([N]byte identifiers) are folded into one integer by an injective pairing function
+// (akey2, axiomatised in the preamble): equal arrays give equal keys, different arrays different keys.
 func (e *Engine) keyVal(st *State, k Val, mt *types.Map) Val {
+	if k.K == KArr {
+		t := "0"
+		for _, f := range k.F {
+			if f.K != KInt && f.K != KBool {
+				e.unsupported("map key array with non-scalar elements")
+				return Val{K: KInt, T: "0"}
+			}
+			t = "(akey2 " + t + " " + f.T + ")"
+		}
+		return Val{K: KInt, T: t, Ty: k.Ty}
+	}
 	return k
 }
 
 func (e *Engine) mapUpdate(st *State, in *ssa.MapUpdate) {
 	m := st.operand(in.Map)
 	mt := in.Map.Type().Underlying().(*types.Map)
-	key := st.operand(in.Key)
+	key := e.keyVal(st, st.operand(in.Key), mt)
 	val := st.operand(in.Value)
 	st.guard("mapnil", sNot(sEq(m.T, "null")), in.Pos())
 	e.checkAssignsMap(st, m, in.Pos())
@@ -1295,6 +1315,7 @@ func (e *Engine) mapUpdate(st *State, in *ssa.MapUpdate) {
 }
 
 func (e *Engine) mapDelete(st *State, m, key Val, mt *types.Map, pos token.Pos) {
+	key = e.keyVal(st, key, mt)
 	e.checkAssignsMap(st, m, pos)
 	dhn := e.mapDomHeap(mt)
 	dh := st.heap(dhn)
